@@ -54,6 +54,7 @@ type histOp struct {
 type histScenario struct {
 	Variant     string   `json:"variant"`
 	Names       []string `json:"names"`
+	ZoneMin     int    `json:"zoneMin,omitempty"` // offset of the host's time zone from UTC, minutes
 	LatestToday bool     `json:"latestToday"`
 	Ops         []histOp `json:"ops"`
 	Victim      []histOp `json:"victim,omitempty"`
@@ -591,6 +592,16 @@ func histsim(t *testing.T, tp *simrt.Tape, opts RunOpts) *Outcome {
 	}
 	sc.Names = perm[:nn]
 	sc.LatestToday = chance(tp, 2, 3)
+	// the host's time zone: record names and "today" both go by local time, and must go by the same one
+	// (east of UTC only: the fake clock starts on 2000-01-01T00:00Z, and west of UTC that is still 1999, a
+	// year the record names were never meant for)
+	sc.ZoneMin = pick(tp, 0, 0, 0, 720, 330, 840, 60, 600)
+	if sc.ZoneMin != 0 {
+		old := time.Local
+		time.Local = time.FixedZone("SIM", sc.ZoneMin*60)
+		defer func() { time.Local = old }()
+		bump(out, "host_time_zone_not_utc")
+	}
 	out.Sample = sc
 	switch sc.Variant {
 	case "seq":
